@@ -577,7 +577,13 @@ def eval_xml(case, stats=None):
                 lines = {elements[i]["line"] for i in chosen}
                 targeted = {i for i in cand if elements[i]["line"] in lines}
             results = "findings"
-        exp_change_lines = sorted(elements[i]["line"] for i in targeted)
+        # an element that already carries exactly these values is not edited: no change entry, and a file whose
+        # targets are all like that has no changeset (a changeset with an empty diff is not a change)
+        def really_changes(i):
+            node = elements[i]["node"]
+            return any(node["attrs"].get(k) != v for k, v in edit["map"].get(node["tag"], {}).items())
+
+        exp_change_lines = sorted(elements[i]["line"] for i in targeted if really_changes(i))
     else:
         targeted = set()
         results = None
